@@ -11,7 +11,7 @@ from .c20 import oracle_key
 class C08(PipelineProp):
     pid = "C08"
     design_ref = "6/C08"
-    required_theorems = ['C08_whole_scaffold_bait', 'C08_trim_large_noop', 'C08_null_bait_result', 'C08_junction_set_reverse', 'C08_null_map_identity', 'C08_hypotheses_satisfiable', 'C08_legacy_refuted']
+    required_theorems = ['C08_whole_scaffold_bait', 'C08_trim_large_noop', 'C08_null_bait_result', 'C08_junction_set_reverse', 'C08_null_map_identity', 'C08_hypotheses_satisfiable', 'C08_legacy_refuted', 'C08_painted_null_map', 'C08_painted_tie_break']
     n_quick = 400
 
     def rule(self):
